@@ -48,7 +48,7 @@ def run(R):
     R.need(len(mv) == 1, "idiom: __enter__ does not take the replacement from super().__enter__()")
     mock_fn = mv[0][0]
     rets = [q.src(n.value) for n in q.scope_nodes(en.node) if isinstance(n, ast.Return)]
-    R.check(rets == [mock_fn], "C19.ATTACH", en.qualname + ":returns", R.site(en), "__enter__ returns the standard library's replacement object", "__enter__ returns %s" % rets)
+    R.check(bool(rets) and all(r == mock_fn for r in rets), "C19.ATTACH", en.qualname + ":returns", R.site(en), "__enter__ returns the standard library's replacement object", "__enter__ returns %s" % rets)
     attach = {}
     for n in cfg.nodes:
         if n.kind != "stmt":
@@ -201,14 +201,15 @@ def run(R):
     R.check(any(len(c.args) == init_n for c in ctor), "C19.DROP-IN", mp.qualname + ":arity", R.site(mp),
             "one of the constructor calls matches the %d positional parameters of the installed _patch.__init__" % init_n,
             "no _PatchAsync(...) call matches the arity (%d) of the installed unittest.mock._patch.__init__" % init_n)
+    wrapped_names = set(t.id for n in q.scope_nodes(mp.node) if isinstance(n, ast.Assign) and q.src(n.value) == "_maybe_wrap_new(new)" for t in n.targets if isinstance(t, ast.Name))
     for c in ctor:
         if len(c.args) == init_n:
             want = [n for n, d in sig(std["_patch.__init__"])[0][1:]]
-            got = [q.src(a) for a in c.args]
+            got = ["new" if q.src(a) in wrapped_names else q.src(a) for a in c.args]
             R.check(got == want, "C19.DROP-IN", mp.qualname + ":order", R.site(mp, c), "arguments are passed in the order of _patch.__init__ (%s)" % ", ".join(want),
                     "_PatchAsync is constructed with %s but _patch.__init__ expects %s" % (got, want))
-    wn = [n for n in q.scope_nodes(mp.node) if isinstance(n, ast.Assign) and q.src(n.value) == "_maybe_wrap_new(new)" and q.src(n.targets[0]) == "new"]
-    R.check(len(wn) == 1, "C19.DROP-IN", mp.qualname + ":wraps-new", R.site(mp), "the replacement goes through _maybe_wrap_new before the patcher is built", "the replacement is not passed through _maybe_wrap_new")
+    news = [q.src(c.args[2]) for c in ctor if len(c.args) > 2]
+    R.check(bool(wrapped_names) and bool(news) and all(x in wrapped_names for x in news), "C19.DROP-IN", mp.qualname + ":wraps-new", R.site(mp), "the replacement goes through _maybe_wrap_new before the patcher is built", "the replacement is not passed through _maybe_wrap_new")
     cp = pa.methods.get("copy")
     R.need(cp is not None, "anchor vanished: _PatchAsync.copy")
     std_fields = [q.src(a) for c in ast.walk(std["_patch.copy"]) if isinstance(c, ast.Call) and q.call_name(c) == "_patch" for a in c.args]
